@@ -31,19 +31,20 @@ PROPS = {
 CORE = "MC_Core.tla"
 CHAIN = "MC_Chain.tla"
 NPM = "MC_Npm.tla"
-QUICK = [(CORE, "core_q"), (CORE, "policy_q"), (CORE, "forms_q"), (CORE, "redir_q"), (CORE, "roots_q"), (CORE, "tdep_q"), (CHAIN, "chain_q"), (NPM, "npm_q")]
-THOROUGH = QUICK + [(CORE, "core_t"), (CORE, "redir_t"), (CORE, "roots_t"), (CHAIN, "chain_t"), (NPM, "npm_t")]
+FIN = "MC_Fin.tla"
+QUICK = [(CORE, "core_q"), (CORE, "policy_q"), (CORE, "forms_q"), (CORE, "redir_q"), (CORE, "roots_q"), (CORE, "tdep_q"), (CHAIN, "chain_q"), (NPM, "npm_q"), (FIN, "fin_q")]
+THOROUGH = QUICK + [(FIN, "fin_t"), (CORE, "core_t"), (CORE, "redir_t"), (CORE, "roots_t"), (CHAIN, "chain_t"), (NPM, "npm_t")]
 def _q(*names):
-    return [(CHAIN if n.startswith("chain") else NPM if n.startswith("npm") else CORE, n) for n in names]
+    return [(CHAIN if n.startswith("chain") else NPM if n.startswith("npm") else FIN if n.startswith("fin") else CORE, n) for n in names]
 # quick tier: the instances that matter for the property; thorough tier: everything
 PROFILES = {
     "quick": {"default": QUICK,
-              "C02": _q("core_q", "policy_q", "tdep_q", "redir_q", "npm_q"),
-              "C14": _q("core_q", "redir_q", "tdep_q", "chain_q"),
-              "C15": _q("core_q", "forms_q", "tdep_q", "redir_q", "npm_q"),
-              "C17": _q("core_q", "forms_q", "redir_q", "tdep_q", "npm_q"),
-              "C18": _q("core_q", "redir_q", "roots_q", "tdep_q"),
-              "C19": _q("core_q", "roots_q", "redir_q", "hist_q")},
+              "C02": _q("core_q", "policy_q", "tdep_q", "redir_q", "npm_q", "fin_q"),
+              "C14": _q("core_q", "redir_q", "tdep_q", "chain_q", "fin_q"),
+              "C15": _q("core_q", "forms_q", "tdep_q", "redir_q", "npm_q", "fin_q"),
+              "C17": _q("core_q", "forms_q", "redir_q", "tdep_q", "npm_q", "fin_q"),
+              "C18": _q("core_q", "redir_q", "roots_q", "tdep_q", "fin_q"),
+              "C19": _q("core_q", "roots_q", "redir_q", "hist_q", "fin_q")},
     "thorough": {"default": THOROUGH, "C19": THOROUGH + [(CORE, "hist_q"), (CORE, "hist_t")]},
 }
 TRACE_BUDGET = {"quick": 120_000, "thorough": 1_500_000}
@@ -109,8 +110,7 @@ def run(prop, tier, seed, replay):
     # graph-level mismatches found by the replay itself (C01: closure/dependency fields; C03 handled elsewhere)
     for m in res["mismatches"]:
         if prop in m.get("prop", []):
-            out.violation(f"{m['what']} {m.get('path', '')} case {m['case']} kind {m['kind']}",
-                          dict(property=prop, source="replay-core", mismatch=m, case=case_by_index(m["case"])))
+            P.absorb_replay_mismatch(out, prop, m, case_by_index(m["case"]))
 
     merged = dict(mismatch=[], known=[], drift=[], events=0, shards=0, stopped=[])
     trace_lines = []
